@@ -241,8 +241,17 @@ func frameLayout(c *core.Ctx) {
 	wl.flagIdx, rl.flagIdx = -1, -1
 	ast.Inspect(w.Body, func(x ast.Node) bool {
 		if as, ok := x.(*ast.AssignStmt); ok && len(as.Lhs) == 1 && len(as.Rhs) == 1 {
-			if ie, ok := astx.Unparen(as.Lhs[0]).(*ast.IndexExpr); ok && astx.ObjOf(info, ie.X) == warr && astx.IsFieldNamed(info, as.Rhs[0], "Flags") {
-				wl.flagIdx, _ = astx.ConstInt(info, ie.Index)
+			if ie, ok := astx.Unparen(as.Lhs[0]).(*ast.IndexExpr); ok && astx.ObjOf(info, ie.X) == warr {
+				isFlags := astx.IsFieldNamed(info, as.Rhs[0], "Flags")
+				// or the writer's own byte-sized parameter (the flags handed in directly)
+				if pv, ok := astx.ObjOf(info, as.Rhs[0]).(*types.Var); ok && paramIndex(funcOf(info, w), pv) >= 0 {
+					if bt, ok := pv.Type().Underlying().(*types.Basic); ok && bt.Kind() == types.Uint8 {
+						isFlags = true
+					}
+				}
+				if isFlags {
+					wl.flagIdx, _ = astx.ConstInt(info, ie.Index)
+				}
 			}
 		}
 		return true
@@ -496,8 +505,14 @@ func typedNil(c *core.Ctx) {
 		case *ssa.ChangeType:
 			return nonNil(x.X, at, depth+1)
 		case *ssa.Phi:
-			for _, e := range x.Edges {
-				if ok, _ := nonNil(e, at, depth+1); !ok {
+			for i, e := range x.Edges {
+				// the value arrives over the i-th incoming edge: what is known at the end of that predecessor
+				// (a guard around the assignment) is what counts, not what is known at the join
+				from := at
+				if blk := x.Block(); blk != nil && i < len(blk.Preds) {
+					from = blk.Preds[i]
+				}
+				if ok, _ := nonNil(e, from, depth+1); !ok {
 					// an edge may still be guarded by a dominating test of the phi itself
 					goto guarded
 				}
